@@ -6,6 +6,7 @@
 #define _GNU_SOURCE
 #include "vp.h"
 #include <time.h>
+#include <errno.h>
 #include <poll.h>
 #include <sys/epoll.h>
 #include <sys/eventfd.h>
@@ -70,6 +71,15 @@ static int reg_of(void *data, const char *what)
 }
 
 static void do_random_ops(int inside);
+/* failpoint: the next allocation made while armed fails (armed around one registration call of the ledger) */
+static int fail_alloc_armed; static long n_enomem_adds;
+void *__real_malloc(size_t n); void *__real_calloc(size_t a, size_t b); void *__real_realloc(void *p, size_t n);
+void *__wrap_malloc(size_t n) { if (fail_alloc_armed) { fail_alloc_armed = 0; errno = ENOMEM; return NULL; } return __real_malloc(n); }
+void *__wrap_calloc(size_t a, size_t b) { if (fail_alloc_armed) { fail_alloc_armed = 0; errno = ENOMEM; return NULL; } return __real_calloc(a, b); }
+void *__wrap_realloc(void *p, size_t n) { if (fail_alloc_armed) { fail_alloc_armed = 0; errno = ENOMEM; return NULL; } return __real_realloc(p, n); }
+static int fp_arm(void) { if (mode == M_FAIR || !vp_chance(&rng, 1, 15)) return 0; fail_alloc_armed = 1; return 1; }
+/* returns 1 when the registration call ran out of memory: it must have said so, and it is as if it had not been made */
+static int fp_done(int armed, int rc, const char *what) { if (!armed) return 0; int fired = !fail_alloc_armed; fail_alloc_armed = 0; if (!fired) return 0; n_enomem_adds++; if (rc == 0) { char k[96]; snprintf(k, sizeof k, "loop:%s-succeeds-although-allocation-failed", what); vp_violation(k, "rc 0"); return 0; } return 1; }
 static void op_add_fd(void);
 static int draining;
 static long n_readd_in_retire;
@@ -160,7 +170,8 @@ static void op_add_job(void)
 {
 	int p = (int)vp_u(&rng, 3); int i = newreg(K_JOB, p); if (i < 0) return;
 	R[i].seq = job_seq++;
-	int rc = qb_loop_job_add(L, (enum qb_loop_priority)p, R[i].ud, job_cb);
+	int fa = fp_arm(); int rc = qb_loop_job_add(L, (enum qb_loop_priority)p, R[i].ud, job_cb);
+	if (fp_done(fa, rc, "job-add")) { R[i].state = ST_DELETED; dropud(i); return; }
 	if (rc != 0) { vp_violation("loop:job-add-failed", "rc=%d", rc); R[i].state = ST_DELETED; dropud(i); return; }
 	n_adds[K_JOB]++; jobs_recently = 2;
 }
@@ -173,6 +184,8 @@ static void op_add_timer(void)
 	uint64_t before = vnow;
 	/* a quarter of the timers are added without asking for a handle (fire and forget) */
 	R[i].nohandle = vp_chance(&rng, 1, 4); if (R[i].nohandle) n_nohandle_timers++;
+	/* (no allocation failpoint here or for descriptors: growing their tables is guarded by assert() in the library, i.e. the
+	 * process is given up on purpose when memory runs out; that is outside what the property is about) */
 	int rc = qb_loop_timer_add(L, (enum qb_loop_priority)p, d, R[i].ud, timer_cb, R[i].nohandle ? NULL : &R[i].th);
 	uint64_t after = vnow;
 	R[i].lo = before + d < before ? ~0ULL : before + d; R[i].hi = after + d < after ? ~0ULL : after + d;
@@ -197,7 +210,8 @@ static void op_add_sig(void)
 {
 	int p = (int)vp_u(&rng, 3); int i = newreg(K_SIG, p); if (i < 0) return;
 	R[i].signo = SIGS[vp_u(&rng, 4)];
-	int rc = qb_loop_signal_add(L, (enum qb_loop_priority)p, R[i].signo, R[i].ud, sig_cb, &R[i].sh);
+	int fa = fp_arm(); int rc = qb_loop_signal_add(L, (enum qb_loop_priority)p, R[i].signo, R[i].ud, sig_cb, &R[i].sh);
+	if (fp_done(fa, rc, "signal-add")) { R[i].state = ST_DELETED; dropud(i); return; }
 	if (rc != 0) { vp_violation("loop:signal-add-failed", "rc=%d", rc); R[i].state = ST_DELETED; dropud(i); return; }
 	n_adds[K_SIG]++;
 }
@@ -551,7 +565,7 @@ int main(int argc, char **argv)
 	vp_count("deletes_of_probably_queued_items", n_del_queued); vp_count("stale_handle_uses", n_stale); vp_count("fd_numbers_reused", n_fd_reuse);
 	vp_count("ops_from_inside_callbacks", n_inside_ops); vp_count("stops_from_callbacks", n_stop_cb); vp_count("epoll_timeouts_checked", n_epoll_checks);
 	vp_count("negative_return_after_self_delete", feat_neg_after_selfdel); vp_count("duplicate_descriptor_adds_refused", n_dup_adds); vp_count("job_del_naming_a_timer", n_foreign_job_dels);
-	vp_count("timers_added_without_a_handle", n_nohandle_timers); vp_count("signal_priority_changes", n_sig_mods); vp_count("signal_registrations_moved_to_another_number", n_sig_renumbered); vp_count("descriptor_priority_change_then_delete", n_mod_then_del); vp_count("descriptor_added_in_retiring_callback", n_readd_in_retire);
+	vp_count("registrations_that_ran_out_of_memory", n_enomem_adds); vp_count("timers_added_without_a_handle", n_nohandle_timers); vp_count("signal_priority_changes", n_sig_mods); vp_count("signal_registrations_moved_to_another_number", n_sig_renumbered); vp_count("descriptor_priority_change_then_delete", n_mod_then_del); vp_count("descriptor_added_in_retiring_callback", n_readd_in_retire);
 	vp_count("timer_queries", n_timer_queries); vp_count("usleep_calls_by_the_loop", n_usleep);
 	vp_finish();
 	return 0;
